@@ -45,7 +45,7 @@ class Authorization:
         data: dict[str, str | None] | None = None,
         token: str | None = None,
     ) -> None:
-        self.type = auth_type
+        self.type = auth_type.lower()
         """The authorization scheme, like ``basic``, ``digest``, or ``bearer``."""
 
         if data is None:
